@@ -44,7 +44,8 @@ def parseList {α} (p : String → Option α) (s : String) : Option (List α) :=
 def parseOptInt? (s : String) : Option (Option Int) :=
   if s == "n" then some none else s.toInt?.map some
 
-def showInts (xs : List Int) : String := ",".intercalate (xs.map toString)
+def showInts (xs : List Int) : String :=
+  if xs.isEmpty then "-" else ",".intercalate (xs.map toString)
 
 def showChans (cs : List ChId) : String :=
   ".".intercalate (cs.map (fun c => toString c.q ++ chanCode c.c))
@@ -178,7 +179,8 @@ def step (s : Sess) (toks : List String) : Sess × String :=
     match c.toNat? with
     | some c => if c ≥ s.circs.size then bad else
       let (w, cp) := s.w.copy s.circs[c]!
-      ({ s with w := w, circs := s.circs.push cp, regs := s.regs.push cp }, s!"c{s.circs.size}")
+      let (w, orphan) := w.newCircuit (.fixed 1)
+      ({ s with w := w, circs := s.circs.push cp, regs := s.regs.push orphan }, s!"c{s.circs.size}")
     | none => bad
   | ["chans", c] =>
     match c.toNat? with
